@@ -104,6 +104,8 @@ class Vocab:
                 x = r.random()
                 return self.iri() if x < .45 else self.literal() if x < .85 else self.bnode()
             x = r.random()
+            if x > .97:     # an ordinary IRI that merely starts like rdflib's name for the default graph
+                return ("iri", "urn:x-rdflib:default-2")
             return ("default",) if x < .3 else self.iri() if x < .8 else self.bnode()
         # generalised + RDF-star
         if slot == "g":
